@@ -107,3 +107,8 @@ Check C13_fixed_memory :
                 end
     end.
 Print Assumptions C13_fixed_memory.
+
+Check C13_complement_keeps_unresolvable :
+  forall (l : list bof) (n : nat) (b : ubound),
+    In (Bound b) l -> bound_nz b -> ~ resolves b n -> In (Bound b) (complement_items l n).
+Print Assumptions C13_complement_keeps_unresolvable.
